@@ -11,6 +11,10 @@ that the seeded generator or a hash-ordered container can reach):
                 groupby_max and the decoy/target pairing then decide which peptide represents a protein
   ensemble      the fed-back models also score as an ensemble (mean over the models in brew's order)
   cli           the same input through the command line entry point `mokapot.mokapot.main` (with --save_models)
+  subset        `subset_max_train` (a third of the rows): the sub-sampling draws of make_train_sets precede the fits
+  small_chunks  the six streaming constants set to small primes, so that prediction, training-set reading, the
+                confidence sort/merge and the column-dropping pass of read_pin all run over SEVERAL chunks (the same
+                constants in every run of the case: what varies is the worker count and the hash seed)
 """
 import contextlib
 import hashlib
@@ -108,8 +112,23 @@ def extra_run(digest, key, params, paths, scores, descs, out, prot):
     files_digest(digest, key, out)
 
 
+SMALL_CHUNKS = dict(predict=97, read_all=113, confidence=89, merge=61, drop_rows=127, drop_cols=3)
+
+
 def analysis(params, workdir: Path, models_in=None, model_order=None, proteins_in=None, keep=None):
     """returns (digest dict, models). All randomness derives from params['seed']."""
+    import pipeline as P
+
+    with P.chunk_sizes(**(SMALL_CHUNKS if params.get("small_chunks") else {})):
+        return _analysis(params, workdir, models_in, model_order, proteins_in, keep)
+
+
+def subset_of(params, n_rows):
+    """`subset_max_train` of a case: a third of all rows (every file's share stays below its training rows)"""
+    return max(20, n_rows // 3) if params.get("subset") else None
+
+
+def _analysis(params, workdir: Path, models_in=None, model_order=None, proteins_in=None, keep=None):
     import numpy as np
     import mokapot
     import mkdata
@@ -118,9 +137,12 @@ def analysis(params, workdir: Path, models_in=None, model_order=None, proteins_i
     workdir.mkdir(parents=True, exist_ok=True)
     ncoll = params.get("ncoll", 1)
     paths = []
+    n_rows = 0
     for c in range(ncoll):
         df = make_table(params, r, params["n_spectra"] if c == 0 else max(60, (2 * params["n_spectra"]) // 3))
+        n_rows += len(df)
         paths.append(mkdata.write_table(df, workdir / f"in{c}.{params['fmt']}"))
+    subset = subset_of(params, n_rows)
     # 1-2 unique peptides per protein, so that decoy proteins do win some pairs (the decoy side of the picked-protein
     # step, which pairs decoy peptides with target peptides of equal composition, must show in the result files)
     n_prot = max(3, (3 * params["n_pep"]) // 4)
@@ -138,7 +160,8 @@ def analysis(params, workdir: Path, models_in=None, model_order=None, proteins_i
     else:
         model = [models_in[i] for i in model_order]
     _, models, scores, descs = mokapot.brew(dsets if ncoll > 1 else dsets[0], model, test_fdr=0.25,
-                                            folds=params["folds"], max_workers=params["workers"], rng=params["seed"])
+                                            folds=params["folds"], max_workers=params["workers"], rng=params["seed"],
+                                            subset_max_train=subset)
     digest["scores"] = sha(b"".join(np.ascontiguousarray(np.asarray(s, dtype=float)).tobytes() for s in scores))
     digest["descs"] = [bool(x) for x in descs]
     coefs = []
@@ -162,7 +185,7 @@ def analysis(params, workdir: Path, models_in=None, model_order=None, proteins_i
     prot = proteins_in if proteins_in is not None else mokapot.read_fasta(fasta, missed_cleavages=0, min_length=4)
     if keep is not None:
         keep["proteins"] = prot
-        keep["paths"], keep["scores"], keep["descs"] = paths, scores, descs
+        keep["paths"], keep["scores"], keep["descs"], keep["subset"] = paths, scores, descs, subset
     digest["fasta"] = sha(json.dumps([sorted(prot.peptide_map.items()), sorted(prot.protein_map.items()),
                                       sorted(prot.shared_peptides.items())]).encode())   # value strings exactly (D38)
     extra_run(digest, "file", params, paths, scores, descs, workdir / "out", prot)
@@ -198,8 +221,10 @@ def cli_analysis(params, workdir: Path, fasta):
 
     r = random.Random(params["data_seed"])
     pins = []
+    n_rows = 0
     for c in range(params.get("ncoll", 1)):
         df = make_table(params, r, params["n_spectra"] if c == 0 else max(60, (2 * params["n_spectra"]) // 3))
+        n_rows += len(df)
         p = workdir / f"cli_in{c}.pin"
         df.to_csv(p, sep="\t", index=False)
         pins.append(p)
@@ -208,6 +233,8 @@ def cli_analysis(params, workdir: Path, fasta):
             "--max_workers", str(params["workers"]), "--proteins", str(fasta), "--missed_cleavages", "0",
             "--min_length", "4", "--keep_decoys", "--train_fdr", "0.25", "--test_fdr", "0.25", "--max_iter", "2",
             "--override", "--save_models", "--verbosity", "0", "--peps_algorithm", params.get("peps", "qvality")]
+    if subset_of(params, n_rows) is not None:
+        args += ["--subset_max_train", str(subset_of(params, n_rows))]
     level = logging.root.manager.disable
     # (no chdir: every output of the tool goes to --dest_dir, and the parent harness runs this in-process while
     # its worker threads spawn the fresh interpreters)
